@@ -753,6 +753,9 @@ def _format_string(value: bytes) -> bytes:
         or value.endswith(_STRIPPED_EDGE_CHARS)
         or b"#" in value
         or b";" in value
+        # git folds any unquoted whitespace, including an interior carriage
+        # return, to a space
+        or b"\r" in value
     ):
         return b'"' + _escape_value(value) + b'"'
     else:
@@ -828,7 +831,7 @@ def _escape_value(value: bytes) -> bytes:
     value = value.replace(b"\\", b"\\\\")
     # A carriage return is written as is: neither git nor _parse_string knows
     # a "\r" escape (it would read back as a backslash followed by "r").
-    # _format_string quotes the value when it is at either end.
+    # _format_string quotes any value that contains one.
     value = value.replace(b"\n", b"\\n")
     value = value.replace(b"\t", b"\\t")
     value = value.replace(b'"', b'\\"')
